@@ -359,6 +359,9 @@ class FormulaGrader(ItemGrader, MathMixin):
         # But the answer we're testing against might only merit partial credit.
         for result in results:
             result['grade_decimal'] *= answer['grade_decimal']
+            # Partial credit scaled down to nothing is no longer partially correct
+            if result['ok'] == 'partial' and result['grade_decimal'] == 0:
+                result['ok'] = False
         consolidated = self.consolidate_results(results, answer, self.config['failable_evals'])
 
         return consolidated, functions_used
